@@ -7,7 +7,7 @@
    after fill_source_line_info.  [wf_file] states only what the parser's integer types
    guarantee (u64 addresses, u32 sizes/depths) plus "fewer than 2^32-1 INLINE ranges per FUNC". *)
 From Coq Require Import Lia.
-From RM Require Import C08.Model C08.Proofs C11.Model C11.Proofs1 C11.Proofs2 C11.Proofs3 C11.Proofs4 C11.Proofs5 C11.Proofs6.
+From RM Require Import C08.Model C08.Proofs C11.Model C11.Proofs1 C11.Proofs2 C11.Proofs3 C11.Proofs4 C11.Proofs5 C11.Proofs6 C11.Proofs7.
 From RM Require C09.Model C09.Grammar C11.Text.
 Open Scope Z_scope.
 
@@ -201,6 +201,48 @@ Theorem c11_from_text_partial : forall nm (lines : list Grammar.rle) q t,
                0 <= Grammar.fr_addr fr <= x.
 Proof. exact Text.from_text_funcs. Qed.
 Print Assumptions c11_from_text_partial.
+
+(* Symbolizer level (walk_stack -> fill_source_line_info -> Symbolizer::fill_symbol): for a module
+   list (C08's [build_indexed] table over the modules' memory_range()) with per-module symbol
+   tables, the frame is SymbolFile::fill_symbol of the module found by C08's lookup, at that
+   module's base, with the inlines reversed; the module found contains the instruction (C08's
+   lookup soundness), hence base <= instruction; the index is always valid; a module without
+   symbols is attached with nothing filled in. *)
+Theorem c11_module_lookup_compose : forall p (mods : list module) instr,
+  Forall wf_module mods ->
+  exists tbl, mod_table mods = Ret tbl /\
+    match rm_get tbl instr with
+    | None => frame_of p tbl mods instr = Ret None
+    | Some idx =>
+        exists b sz ost r, 0 <= idx /\ nth_error mods (Z.to_nat idx) = Some (b, sz, ost) /\
+          mk_range b sz = Some r /\ contains r instr = true /\ b <= instr /\
+          frame_of p tbl mods instr =
+            match ost with
+            | Some st => do o <- fill_symbol p st b instr;
+                         Ret (Some (idx, mk_out (o_func o) (o_src o) (rev (o_inl o))))
+            | None => Ret (Some (idx, empty_out))
+            end
+    end.
+Proof. exact module_lookup_compose. Qed.
+Print Assumptions c11_module_lookup_compose.
+
+(* ... and when every module's table was parsed from a (well-formed) file it never panics:
+   the frame is the pure result [fill_pure] (the function all other theorems describe). *)
+Theorem c11_module_frame_total : forall p (mods : list module) instr,
+  Forall wf_module mods -> Forall module_parsed mods -> instr < two64 ->
+  exists tbl, mod_table mods = Ret tbl /\
+    frame_of p tbl mods instr =
+      Ret (match rm_get tbl instr with
+           | None => None
+           | Some idx =>
+               match nth_error mods (Z.to_nat idx) with
+               | Some (b, _, Some st) =>
+                   let o := fill_pure st b instr in Some (idx, mk_out (o_func o) (o_src o) (rev (o_inl o)))
+               | _ => Some (idx, empty_out)
+               end
+           end).
+Proof. exact module_frame_total. Qed.
+Print Assumptions c11_module_frame_total.
 
 Ltac wf_tac :=
   unfold wf_file, wf_fraw, wf_line, wf_inl, wf_pub, wf_win, u64, u32, two64, two32;
